@@ -182,6 +182,8 @@ def C03(tier):
            layout_ob("layout-bands-lp", "Harness_E_C03", sh, {"P4": [4, 1], "P1": [0, 1]},
                      consts={"P2": 1, "P5": 1, "SZ": 2, "KNOWN_FLAT": 0}, bounds="same shapes x longest-path layering x {SinkColoring,VAlign}")]
     obs.append(ns_pivot_ob(tier))
+    obs.append(ns_balance_ob(tier))
+    obs += ns_whole_obs(tier, ("feasible",))
     return dict(obligations=obs)
 
 
@@ -192,6 +194,7 @@ def C04(tier):
     obs = [layout_ob("layout-no-overlap", "Harness_E_C04", sh, {"P4": [4, 1, 5], "P1": [0, 1], "P2": [0, 1]},
                      consts={"P5": 0, "SZ": 2},
                      bounds="all canonical edge lists N<=%d M<=%d x {SinkColoring,VAlign,PackRight} x {greedy,dfs} x {NS,LP}; %s" % (N, M, SYMB)),
+           layered_ob(tier, [4, 1, 5]),
            layout_ob("layout-no-overlap-sinkcoloring-5", "Harness_E_C04", edge_lists(5, 4, selfloops=False, connected=True)[::nm(q, 4, 1)], {"P1": [0]},
                      consts={"P2": 0, "P4": 4, "P5": 0, "SZ": 4, "LSFIX": 1},
                      bounds="%s canonical connected trees/forests with N=5 M=4 (every edge order) x SinkColoring (default pipeline); symbolic widths, NodeSpacing" % nm(q, "every 4th of the", "all")),
@@ -296,6 +299,30 @@ def ns_pivot_ob(tier):
                        "with symbolic minimum lengths Delta in 0..3 and weights in 0..2 per edge (as the NetworkSimplex positioner uses the same code)" % grid)
 
 
+def ns_whole_obs(tier, which):
+    q = tier == "quick"
+    grid = [(3, 3), (4, 4)] if q else [(3, 3), (4, 4), (4, 5), (5, 5)]
+    out = []
+    if "feasible" in which:
+        out.append(dict(name="ns-whole-feasible", pkg="internal/phase2", func="Harness_NS_Feasible", consts={}, cubes=dag_cubes(grid), enctimeout=90, qtimeout=60, loop=64,
+                        bounds="whole real execNetworkSimplex (feasible tree, pivots, normalize, vbalance) on all canonical connected DAGs with (N,M) in %s (cubes); symbolic: the "
+                               "minimum length of every edge in 0..2 (stands in for the slacks of larger graphs; the NS positioner runs the same code with arbitrary lengths)" % grid))
+    if "optimal" in which:
+        out.append(dict(name="ns-whole-optimal", pkg="internal/phase2", func="Harness_NS_Optimal", consts={}, cubes=dag_cubes(grid), enctimeout=90, qtimeout=60, loop=64,
+                        validate_cubes=0,
+                        bounds="whole real execNetworkSimplex without balancing, iteration budget beyond the engine's loop bound (capped runs are cut, not judged), same cubes; "
+                               "symbolic: minimum lengths 0..2 and an arbitrary alternative layering alt[] - the solver searches for a cheaper feasible one"))
+    return out
+
+
+def ns_balance_ob(tier):
+    q = tier == "quick"
+    grid = [(3, 3), (4, 4)] if q else [(3, 3), (4, 4), (4, 5), (5, 5), (5, 6)]
+    return dict(name="ns-balance-lemma", pkg="internal/phase2", func="Harness_NS_Balance", consts={}, cubes=dag_cubes(grid), enctimeout=300, qtimeout=120,
+                bounds="normalize + vbalance from an ARBITRARY feasible layering: all canonical connected DAGs with (N,M) in %s as cubes; symbolic: the layer of every "
+                       "node in -3..2N, assumed feasible" % grid)
+
+
 def C10(tier):
     q = tier == "quick"
     N, M = nm(q, (4, 4), (5, 5))
@@ -305,6 +332,8 @@ def C10(tier):
                      bounds="all canonical connected loop-free edge lists N<=%d M<=%d x {greedy,dfs}; symbolic: an arbitrary alternative layering alt[i] in 0..15 "
                             "(the solver searches for a cheaper feasible layering of the drawn orientation)" % (N, M))]
     obs.append(ns_pivot_ob(tier))
+    obs.append(ns_balance_ob(tier))
+    obs += ns_whole_obs(tier, ("feasible", "optimal"))
     if not q:
         multi = [s for s in shapes(5, 4, selfloops=True) if not is_connected(s, 1 + max(max(e) for e in s))]
         obs.append(layout_ob("layout-ns-optimal-components", "Harness_E_C10", multi, {"P1": [0]},
@@ -408,6 +437,49 @@ def C14(tier):
     return dict(obligations=obs)
 
 
+def layered_cubes(tier):
+    """proper layered ordered graphs: node counts per layer, edges between adjacent layers (every node has an incident edge),
+    middle nodes with exactly one in- and one out-edge optionally flagged as helper nodes"""
+    import itertools
+    q = tier == "quick"
+    out = []
+    size_sets = [(1, 2), (2, 2), (2, 3), (3, 2), (1, 2, 2), (2, 2, 2), (2, 1, 2), (2, 3, 2), (3, 2, 3), (2, 2, 3), (1, 3, 1)] if q else [
+        t for L in (2, 3) for t in itertools.product((1, 2, 3), repeat=L)] + [(2, 2, 2, 2), (1, 2, 2, 1), (2, 3, 3, 2)]
+    for ks in size_sets:
+        pairs = [(l, a, b) for l in range(len(ks) - 1) for a in range(ks[l]) for b in range(ks[l + 1])]
+        lo, hi = max(ks) if len(ks) == 2 else sum(ks) // 2 + 1, min(len(pairs), sum(ks) + (0 if q else 1))
+        for m in range(lo, hi + 1):
+            combos = list(itertools.combinations(pairs, m))
+            step = max(1, len(combos) // (10 if q else 60))
+            for es in combos[::step]:
+                deg_in = {}
+                deg_out = {}
+                for (l, a, b) in es:
+                    deg_out[(l, a)] = deg_out.get((l, a), 0) + 1
+                    deg_in[(l + 1, b)] = deg_in.get((l + 1, b), 0) + 1
+                if any(deg_in.get((l, i), 0) + deg_out.get((l, i), 0) == 0 for l in range(len(ks)) for i in range(ks[l])):
+                    continue
+                vcand = [(l, i) for l in range(1, len(ks) - 1) for i in range(ks[l]) if deg_in.get((l, i), 0) == 1 and deg_out.get((l, i), 0) == 1]
+                for virt in ([False, True] if vcand else [False]):
+                    c = {"L": len(ks), "M": m, "PANICS": 1}
+                    for l, k in enumerate(ks):
+                        c["k[%d]" % l] = k
+                        for i in range(k):
+                            c["virt[%d]" % (l * 8 + i)] = 1 if (virt and (l, i) in vcand) else 0
+                    for j, (l, a, b) in enumerate(es):
+                        c["el[%d]" % j], c["ea[%d]" % j], c["eb[%d]" % j] = l, a, b
+                    out.append(c)
+    return out
+
+
+def layered_ob(tier, algs, name="positioner-on-layered-graphs"):
+    cubes = [dict(c, P4=a) for c in layered_cubes(tier) for a in algs]
+    return dict(name=name, pkg="internal/phase4", func="Harness_P4_Layered", consts={}, cubes=cubes, enctimeout=200, qtimeout=100, depth=40,
+                bounds="positioner kernel (Alg.Process = positioner + assignYCoords) on ARBITRARY proper layered ordered graphs (the documented precondition of phase 4): "
+                       "2-4 layers of 1-3 nodes, sampled edge sets between adjacent layers, helper-node flags (cubes) x algorithms %s; symbolic: W,H of every real node, "
+                       "NodeSpacing, LayerSpacing in [0,64]; panic sites and the placeBlock recursion budget included" % algs)
+
+
 def C16(tier):
     q = tier == "quick"
     N, M = nm(q, (4, 3), (5, 4))
@@ -415,7 +487,8 @@ def C16(tier):
     obs = [layout_ob("layout-valign-packright", "Harness_E_C16", sh, {"P4": [1, 5], "P1": [0, 1], "P3": [1, 0]},
                      consts={"P2": 0, "P5": 2, "SZ": 2, "VIRT": 1},
                      bounds="all canonical connected edge lists (%s) x {VAlign,PackRight} x {greedy,dfs} x {weighted-median ordering, no ordering}, helper nodes in the output; %s (LayerSpacing>=1)" % (
-                         nm(q, "N<=4 M<=3, N<=3 M<=4", "N<=5 M<=4, N<=4 M<=5"), SYMB))]
+                         nm(q, "N<=4 M<=3, N<=3 M<=4", "N<=5 M<=4, N<=4 M<=5"), SYMB)),
+           layered_ob(tier, [1, 5], name="valign-packright-on-layered-graphs")]
     return dict(obligations=obs)
 
 
